@@ -130,7 +130,7 @@ pub fn ndisc_na(src: &Addr, dst: &Addr, target: &[u8; 16], mac: &[u8; 6]) -> Vec
 
 #[derive(Clone, Debug)]
 pub enum L3 {
-    Arp { oper: u16, sha: [u8; 6], spa: [u8; 4], tpa: [u8; 4] },
+    Arp { oper: u16, tpa: [u8; 4] },
     /// whole IP packet + parsed header
     Ip { info: wc::IpInfo, packet: Vec<u8> },
     Bad(String),
@@ -161,13 +161,9 @@ pub fn parse_frame(ethernet: bool, f: &[u8]) -> Parsed {
             if p.len() < 28 || p[0..6] != [0, 1, 8, 0, 6, 4] {
                 L3::Bad("ARP packet malformed".into())
             } else {
-                let mut sha = [0u8; 6];
-                sha.copy_from_slice(&p[8..14]);
-                let mut spa = [0u8; 4];
-                spa.copy_from_slice(&p[14..18]);
                 let mut tpa = [0u8; 4];
                 tpa.copy_from_slice(&p[24..28]);
-                L3::Arp { oper: ((p[6] as u16) << 8) | p[7] as u16, sha, spa, tpa }
+                L3::Arp { oper: ((p[6] as u16) << 8) | p[7] as u16, tpa }
             }
         }
         ETH_IPV4 | ETH_IPV6 => {
